@@ -1,6 +1,7 @@
 "C19 — math expressions evaluate to their arithmetic value; errors and extract() are well-behaved"
 import itertools
 from fractions import Fraction
+import os
 from hypothesis import strategies as st
 from vlib import core, alphabets as A, math_model as M
 from vlib.core import guard
@@ -79,7 +80,8 @@ def check_eval(case, rec, distinct=False):
         if exc is None or not isinstance(exc, ZeroDivisionError):
             rec.fail('zero-division-not-raised', 'exact division by zero; evaluate gave %r / %r' % (got, exc))
     elif kind == 'invalid':
-        must = any(c not in OKCH for c in text)
+        # decimal digits of other scripts (`٣`, `߀`): whether they are "digits" is not stated; only the exception-type clause applies to them
+        must = any(c not in OKCH and not (c.isdecimal() and not c.isascii()) for c in text)
         st_ = text.rstrip(SPACES)
         toks = M.tokenize(text)
         stray = False
@@ -316,3 +318,27 @@ def run(ctx):
     soup = st.lists(st.sampled_from(['1', '2', '.5', '10', '(1)', '(2)', '()', '(', ')', ')(', '+', '-', '*', '/', '\\', ' ', '.']), min_size=1, max_size=12).map(lambda l: {'expr': ''.join(l)})
     ctx.run_hypothesis('eval', soup, ctx.pick(2000, 30000), seed_key=77)
     ctx.run_hypothesis('extract', extract_strategy(), ctx.pick(3000, 50000))
+    if ctx.thorough or os.environ.get('VERIF_FUZZ'):
+        ctx.run_atheris('eval', ctx.pick(10000, 200000))
+        ctx.run_atheris('extract', ctx.pick(10000, 200000))
+
+
+# coverage-guided layer (thorough tier). eval: all bytes are the text; extract: byte 0 = option set, byte 1 = position (mod len+1)
+def _fz_eval(data):
+    from vlib.fuzz import text_of
+    return {'expr': text_of(data)}
+
+
+def _fz_extract(data):
+    if len(data) < 2:
+        return None
+    from vlib.fuzz import text_of
+    opts = OPTS + [{'lookAhead': False, 'whitespace': False}]
+    text = text_of(data[2:])
+    return {'text': text, 'pos': data[1] % (len(text) + 1), 'opt': opts[data[0] % len(opts)]}
+
+
+_FZ_EXPRS = ['1+2', '(1+2)*3', '2 * (3 + 1)', '-5', '.5\\2', '10/4', '((1))', '1 - -2', '7\\2*3', '3.25*(2-0.5)/4']
+FUZZ = {'eval': {'decode': _fz_eval, 'seeds': lambda: [e.encode() for e in _FZ_EXPRS], 'max_len': 24, 'dict': ['(', ')', '\\', '.5', ' - ', '*', '/']},
+        'extract': {'decode': _fz_extract, 'seeds': lambda: [bytes([i % 4, len(e) + 4]) + b'foo ' + e.encode() + b') x' for i, e in enumerate(_FZ_EXPRS)],
+                    'max_len': 28, 'dict': ['(', ')', '\\', '.5', ' ']}}
